@@ -202,6 +202,10 @@ impl World {
                 Ev::Lidt { limit, .. } => format!("lidt {limit}"),
                 Ev::Iretq { cs, ss, .. } => format!("iretq {cs:x} {ss:x}"),
                 Ev::Retfq { cs, .. } => format!("retfq {cs:x}"),
+                // the arithmetic flags at a pushfq are whatever the last native instruction left,
+                // which may have compared host addresses
+                Ev::Pushfq { val } => format!("pushfq {:x}", val & !0x8d5),
+                Ev::Popfq { val } => format!("popfq {:x}", val & !0x8d5),
                 // refusal texts quote raw descriptors, which may hold host addresses
                 Ev::Fault { vec, why } => format!("fault {vec} {}", why.split(':').next().unwrap_or("")),
                 e => format!("{e:?}"),
